@@ -139,6 +139,20 @@ InitClauses(T, ev, post) ==
        If(post.core # InitState(T.inst), {C("C12:init-state")})
   \cup StateClauses(T.inst, T.filt, post)
 
+(* C13 step by step (the running sums telescope to this, and it also holds for a reward observer that was   *)
+(* attached in the middle of a history): the reward emitted for an accepted dispatch of e = <<j, p, m, st>> *)
+(* is minus the growth of the makespan, resp. minus the idle time e leaves on its machine                   *)
+RewardStepClauses(I, prev, post, e) ==
+    IF Len(post.obs) # Len(prev.obs) THEN {} ELSE
+    UNION { LET o == post.obs[i]  q == prev.obs[i] IN
+            IF o.t = q.t /\ o.t \in {"MakespanReward", "IdleTimeReward"} /\ "rewards" \in DOMAIN o /\ "rewards" \in DOMAIN q
+            THEN IF Len(o.rewards) # Len(q.rewards) + 1 THEN {Tag("C13:reward-count-step", o.t)}
+                 ELSE LET r == o.rewards[Len(o.rewards)] IN
+                      IF o.t = "MakespanReward"
+                      THEN If(r # MakespanDef(I, prev.core.sched) - MakespanDef(I, post.core.sched), {Tag("C13:reward-step", o.t)})
+                      ELSE If(r # prev.core.mfree[e[3]] - e[4], {Tag("C13:reward-step", o.t)})
+            ELSE {} : i \in DOMAIN post.obs }
+
 DispatchClauses(T, prev, ev, post) ==
     LET I == T.inst  s == prev.core  c == post.core
         valid == ValidRequest(I, s, ev.j, ev.p, ev.m)
@@ -154,6 +168,7 @@ DispatchClauses(T, prev, ev, post) ==
                 THEN {C("C02:start")} ELSE {C("C01:schedule-step")})
         \cup If(<<c.nxt, c.jfree, c.mfree>> # <<exp.nxt, exp.jfree, exp.mfree>>, {C("C02:tracking-step")})
         \cup NoteClauses(I, T.kinds, prev.subs, ev, e, post)
+        \cup (IF c.sched = exp.sched /\ c.mfree = exp.mfree THEN RewardStepClauses(I, prev, post, e) ELSE {})
         \cup HistClauses(T.kinds, prev, post, e, FALSE)
         \cup If(post.subs # prev.subs, {C("C10:subscribers-changed")})
         \cup TimeClauses(I, T.filt, s, c)
@@ -349,6 +364,7 @@ GraphClauses(T, prev, ev, post) ==
     IF ev.out # "ok" THEN {Tag("C16:builder-raised", <<ev.builder, ev.out>>)}
     ELSE GraphShapeClauses(ev.builder, T.inst, ev, GraphPairs(ev.builder, T.inst))
          \cup If(post.core # prev.core \/ ~post.instok, {C("C16:builder-changed-state")})
+         \cup If("earlier_stable" \in DOMAIN ev /\ ~ev.earlier_stable, {Tag("C16:earlier-graph-changed-by-building-another", ev.builder)})
 SolvedClauses(T, prev, ev, post) ==
     LET I == T.inst  sch == ev.sched
         E == {<<ev.edges[i][1], ev.edges[i][2]>> : i \in DOMAIN ev.edges}
